@@ -174,6 +174,44 @@ class Terms(object):
             return self.concat(parts) if parts else C("")
         return ("opaque", key(e))
 
+    def under_path(self, func, node, t):
+        """`t` with every conditional `ite(cond(X), a, b)` whose condition X was decided by a test on every path to `node` (same term: same
+        expression over the same definitions) replaced by the arm taken."""
+        if node is None or not isinstance(t, tuple) or "ite" not in repr(t):
+            return t
+        key = (func.qualname, node.id)
+        cache = self.__dict__.setdefault("_path_cache", {}) if hasattr(self, "__dict__") else {}
+        known = cache.get(key)
+        if known is None:
+            g = self.ctx.cfg(func)
+            known = {}
+            for tn in g.live_nodes():
+                if tn.kind != "test" or tn is node:
+                    continue
+                labs = set(l for _d, l in g.succ[tn] if l in ("true", "false"))
+                for lab in sorted(labs):
+                    r = g.reach([g.entry], exc=True, include_start=True, edge_filter=lambda s_, d_, l_, tn=tn, lab=lab: not (s_ is tn and l_ == lab))
+                    if node not in r:
+                        te = unawait(tn.ast.test)
+                        val = lab == "true"
+                        while isinstance(te, ast.UnaryOp) and isinstance(te.op, ast.Not):
+                            te, val = te.operand, not val
+                        try:
+                            known[self.cond_key(func, tn, te, {}, 0)] = val
+                        except RecursionError:
+                            pass
+            cache[key] = known
+        if not known:
+            return t
+
+        def simp(x, depth=0):
+            if not isinstance(x, tuple) or depth > 60:
+                return x
+            if len(x) == 4 and x[0] == "ite" and x[1] in known:
+                return simp(x[2] if known[x[1]] else x[3], depth + 1)
+            return tuple(simp(y, depth + 1) if isinstance(y, tuple) else y for y in x)
+        return simp(t)
+
     @staticmethod
     def mk_ite(cond, a, b):
         """`x if x else y` is `x or y`, `y if x else x` is `x and y` (x call-free or not: the term stands for the value)"""
